@@ -1,6 +1,10 @@
 package twig
 
-import "errors"
+import (
+	"errors"
+	"os"
+	"time"
+)
 
 // C15: template cache and loaders always serve the source the configuration calls for. Public API
 // only. An explicit state machine in the harness (written from the property statement) predicts,
@@ -98,6 +102,9 @@ func VH_C15_Cache() {
 	e := New()
 	e.RegisterLoader(loaders[0])
 	e.RegisterLoader(loaders[1])
+	// pages that reach the names through include / extends / import: they must see what a direct render sees
+	e.RegisterString("wa", "{% include 'a' %}")
+	e.RegisterString("wb", "{% include 'b' %}")
 	cache, auto := true, false // engine defaults
 	model := map[string]*vhC15Entry{"a": {}, "b": {}}
 	tag := ""
@@ -155,6 +162,14 @@ func VH_C15_Cache() {
 }
 
 func vhC15Render(e *Engine, n string, loaders []vhC15Loader, model map[string]*vhC15Entry, cache, auto bool) {
+	vhC15Direct(e, n, loaders, model, cache, auto)
+	// the same name reached through an include of a registered page, right after: same source
+	out, err := e.Render(n, nil)
+	wout, werr := e.Render("w"+n, nil)
+	symAssert((werr == nil) == (err == nil) && wout == out, "include-serves-what-a-direct-render-serves")
+}
+
+func vhC15Direct(e *Engine, n string, loaders []vhC15Loader, model map[string]*vhC15Entry, cache, auto bool) {
 	m := model[n]
 	before := []int{loaders[0].reads(n), loaders[1].reads(n)}
 	out, err := e.Render(n, nil)
@@ -210,4 +225,100 @@ func vhC15Render(e *Engine, n string, loaders []vhC15Loader, model map[string]*v
 		symAssert(out == "", "no-output")
 		// "a name no loader has ... changes nothing in the cache": a previously cached entry stays as it was
 	}
+}
+
+// ---- C15.files: the same through a FileSystemLoader and file modification times ---------------------
+// Package os is an in-memory model inside the symbolic engine (modification times symbolic through
+// os.Chtimes); natively a temporary directory is used.
+
+func vhC15Write(path string, ver int, mtime int64) {
+	os.WriteFile(path, []byte("f"+[]string{"0", "1", "2", "3", "4", "5"}[ver]+"{{ x }}"), 0644)
+	t := time.Unix(mtime, 0)
+	os.Chtimes(path, t, t)
+}
+
+// VH_C15_Files: one template file served by a FileSystemLoader; a history of H operations from {set
+// cache, set auto-reload, rewrite the file with new content and a strictly later modification time,
+// touch it (later time, same content), delete it, render-and-check}; all times symbolic.
+func VH_C15_Files() {
+	h := symParam("H", 3)
+	dir, err := os.MkdirTemp("", "vhc15")
+	if err != nil {
+		panic(vhStop{"no temporary directory"})
+	}
+	defer os.RemoveAll(dir)
+	path := dir + "/a.twig"
+	mt := int64(symInt())
+	symAssume(mt >= 1 && mt < 2000000000)
+	ver, exists := 0, true
+	vhC15Write(path, ver, mt)
+	e := New()
+	e.RegisterLoader(NewFileSystemLoader([]string{dir}))
+	cache, auto := true, false
+	var m vhC15Entry
+	check := func() {
+		out, err := e.Render("a", map[string]interface{}{"x": "v"})
+		useCached := false
+		if m.present && cache {
+			if !auto {
+				useCached = true
+			} else {
+				useCached = exists && !(mt > m.mtime)
+			}
+		}
+		switch {
+		case useCached:
+			symCover("served-from-cache")
+			symAssert(err == nil && out == m.out, "serves-remembered-source")
+		case exists:
+			symCover("loaded-from-file")
+			symAssert(err == nil && out == "f"+[]string{"0", "1", "2", "3", "4", "5"}[ver]+"v", "serves-current-file")
+			if cache {
+				m = vhC15Entry{present: true, out: out, mtime: mt}
+			}
+		default:
+			symCover("not-found")
+			symAssert(err != nil && errors.Is(err, ErrTemplateNotFound), "missing-name-matches-ErrTemplateNotFound")
+			symAssert(out == "", "no-output")
+		}
+	}
+	tag := ""
+	for step := 0; step < h; step++ {
+		switch symChoice(6) {
+		case 0:
+			cache = symBool()
+			e.SetCache(cache)
+			tag += "C"
+		case 1:
+			auto = symBool()
+			e.SetAutoReload(auto)
+			tag += "A"
+		case 2: // new content, strictly later time
+			m2 := int64(symInt())
+			symAssume(m2 > mt && m2 < 2000000000)
+			ver, mt, exists = ver+1, m2, true
+			vhC15Write(path, ver, mt)
+			tag += "W"
+		case 3: // touch
+			if !exists {
+				symAssume(false)
+			}
+			m2 := int64(symInt())
+			symAssume(m2 > mt && m2 < 2000000000)
+			mt = m2
+			t := time.Unix(mt, 0)
+			os.Chtimes(path, t, t)
+			tag += "T"
+		case 4:
+			os.Remove(path)
+			exists = false
+			tag += "D"
+		case 5:
+			check()
+			tag += "r"
+		}
+	}
+	symTag("hist:" + tag)
+	check()
+	symCover("done")
 }
